@@ -95,6 +95,7 @@ type c16Shared struct {
 	arr     [][32]byte
 	names   map[string][]string
 	us      []*big.Int // inputs of the map-to-curve functions (exceptional ones included)
+	fes     []*field.Element // the same inputs as shared, read-only field element objects
 
 	probeMsg, probeDst                                     []byte
 	truthOrder, truthG, truthH2S, truthH2G, truthNegG []byte
@@ -181,6 +182,10 @@ func c16BuildShared(seed uint64, history bool) *c16Shared {
 
 	ex, _ := oracle.FSqrt(oracle.FNeg(oracle.FInv0(oracle.Z)))
 	sh.us = []*big.Int{big.NewInt(0), ex, oracle.FNeg(ex), big.NewInt(1), gen.Draw(r, oracle.P).X, gen.Draw(r, oracle.P).X}
+
+	for _, u := range sh.us {
+		sh.fes = append(sh.fes, mon.FE(u))
+	}
 
 	sh.probeMsg, sh.probeDst = []byte("c16 probe message"), []byte("c16-probe-dst-0123456789")
 	sh.truthOrder = oracle.Bytes32(oracle.N)
@@ -392,11 +397,20 @@ func c16Do(op int, st *c16Own, sh *c16Shared, r *gen.Rng) (name string, d uint64
 		return "Scalar.CSelect(nil)", digest(errS(err)), true
 	case 52:
 		// the exported map-to-curve functions, including the three exceptional inputs
-		u := sh.us[r.Intn(len(sh.us))]
+		ui := r.Intn(len(sh.us))
+		u := sh.us[ui]
 		q := secp256k1.SSWU(mon.FE(u))
 		x, y, _ := secp256k1.VRaw(q)
 
-		return "SSWU", digest(x, y), true
+		// ... and on the SHARED field element holding the same value (the argument is read-only)
+		q2 := secp256k1.SSWU(sh.fes[ui])
+		x2, y2, _ := secp256k1.VRaw(q2)
+
+		if x2 != x || y2 != y || sh.fes[ui].E != oracle.ToMont(u, oracle.P) {
+			return "TRUTH-VIOLATED: SSWU on a shared field element differs from SSWU on a private one, or changed its argument", 1, true
+		}
+
+		return fmt.Sprintf("SSWU(u%d)", ui), digest(x, y), true
 	case 53:
 		u := sh.us[r.Intn(len(sh.us))]
 		q := secp256k1.IsogenySecp256k13iso(secp256k1.SSWU(mon.FE(u)))
